@@ -94,7 +94,7 @@ def filter_world():
     if "d" in _FILTER_DIR:
         return _FILTER_DIR["infos"]
     from experimaestro.cli.filter import JobInformation
-    d = Path(tempfile.mkdtemp(prefix="c19f", dir="/dev/shm"))
+    d = Path(tempfile.mkdtemp(prefix="c19f", dir=os.environ.get("VERIF_SCRATCH", "/dev/shm")))
     import atexit
     atexit.register(lambda: shutil.rmtree(d, ignore_errors=True))
     infos = []
@@ -237,7 +237,7 @@ def eval_layouts(item):
     runner = CliRunner()
     for layout in item["layouts"]:
         for cmd in COMMANDS:
-            d = Path(tempfile.mkdtemp(prefix="c19l", dir="/dev/shm"))
+            d = Path(tempfile.mkdtemp(prefix="c19l", dir=os.environ.get("VERIF_SCRATCH", "/dev/shm")))
             try:
                 ids = build_layout(d, layout)
                 if cmd["cmd"] == "clean":
